@@ -630,7 +630,7 @@ fn report(check: &Check, w: &World, r: Result<Result<RunStats, Fail>, vmon::Pani
     }
 }
 
-fn exhaustive_graph(check: &Check, rng: &mut Rng, cap: u64) {
+fn exhaustive_graph(check: &Check, dog: &Dog, rng: &mut Rng, cap: u64) {
     let kind = *rng.pick(&[Kind::Closest, Kind::Closest, Kind::Disjoint, Kind::Fixed]);
     let n = 2 + rng.usize(4); // 2..=5 peers
     let mut w = gen_world(rng, kind, n);
@@ -642,7 +642,9 @@ fn exhaustive_graph(check: &Check, rng: &mut Rng, cap: u64) {
     loop {
         dfs.pos = 0;
         let mut trace = vec![];
+        dog.enter(|| format!("exhaustive {}", w.json()));
         let r = catch(|| run_once(&w, &mut dfs, false, false, &mut trace));
+        dog.leave();
         let bad = !matches!(r, Ok(Ok(_)));
         let st = report(check, &w, r, &trace, "exhaustive");
         runs += 1;
@@ -666,7 +668,7 @@ fn exhaustive_graph(check: &Check, rng: &mut Rng, cap: u64) {
     check.count("exhaustive_schedules", runs);
 }
 
-fn prng_graph(check: &Check, rng: &mut Rng) {
+fn prng_graph(check: &Check, dog: &Dog, rng: &mut Rng) {
     let kind = *rng.pick(&[Kind::Closest, Kind::Closest, Kind::Closest, Kind::Disjoint, Kind::Disjoint, Kind::Fixed]);
     let n = match rng.below(5) {
         0 => rng.usize(4),
@@ -677,7 +679,9 @@ fn prng_graph(check: &Check, rng: &mut Rng) {
     let mut trace = vec![];
     let extras = rng.chance(1, 5);
     let mut ch = Prng(rng);
+    dog.enter(|| format!("prng {}", w.json()));
     let r = catch(|| run_once(&w, &mut ch, extras, true, &mut trace));
+    dog.leave();
     if let Some(st) = report(check, &w, r, &trace, "prng") {
         if st.issued >= 4 && st.timeouts > 0 && check.counter("prng_samples") < 3 {
             check.count("prng_samples", 1);
@@ -689,17 +693,19 @@ fn prng_graph(check: &Check, rng: &mut Rng) {
 }
 
 pub fn run(args: &Args) -> i32 {
-    let check = Check::new(
+    let check: &'static Check = Box::leak(Box::new(Check::new(
         args,
         "exploration",
         "worlds = (iterator kind, peer graph with fixed answer lists, target, initial peers, parallelism 1-4, num_results 1-5/20); exhaustive part: graphs of 2-5 peers, all explorer schedules \
          (which outstanding request succeeds/fails incl. late, jump to next deadline, tick, give up) by DFS, capped per graph; PRNG part: graphs up to 60 peers with weighted random schedules plus \
          spurious answers and early finish(). Non-trivial = run with >= 2 issued requests; distinct by (schedule trace, world)",
-    );
+    )));
     let tiny = args.extra.get("budget").map(|b| b == "tiny").unwrap_or(false);
-    let (graphs, cap, prng) = if tiny { (4, 50, 20) } else { args.tier.pick((1_500, 2_000, 300_000), (20_000, 30_000, 6_000_000)) };
-    vmon::par_cases(&check, graphs, args.threads, |_i, rng| exhaustive_graph(&check, rng, cap));
-    vmon::par_cases(&check, prng, args.threads, |_i, rng| prng_graph(&check, rng));
+    let (graphs, cap, prng) = if tiny { (4, 50, 20) } else { args.tier.pick((1_500, 2_000, 300_000), (10_000, 20_000, 4_000_000)) };
+    let dog = Dog::start(check, 60);
+    vmon::par_cases(check, graphs, args.threads, |_i, rng| exhaustive_graph(check, &dog, rng, cap));
+    vmon::par_cases(check, prng, args.threads, |_i, rng| prng_graph(check, &dog, rng));
+    dog.stop();
     check.note("exhaustive", json!("per small graph: all schedules up to the cap (see exhaustive_graphs_fully_explored / exhaustive_graphs)"));
     check.finish()
 }
